@@ -368,3 +368,60 @@ def equal(a, b):
 
 def atom_name(i):
     return _names[i]
+
+
+def substitute(p, values):
+    """replace plain atoms by exact numbers: values maps atom NAME -> int /
+    Fraction.  Inverse brackets whose variables are all substituted become
+    numbers too (ZeroDivisionError if a bracket vanishes)."""
+    if not p.t:
+        return p
+    cache = {}
+
+    def val(a):
+        v = cache.get(a, None)
+        if v is not None:
+            return v
+        v = False
+        name = _names[a]
+        if name in values:
+            v = Fraction(values[name])
+        elif a in _brackets:
+            acc = Fraction(0)
+            ok = True
+            for m, c in _brackets[a]:
+                term = Fraction(c)
+                for x in m:
+                    xv = val(x)
+                    if xv is False:
+                        ok = False
+                        break
+                    term *= xv
+                if not ok:
+                    break
+                acc += term
+            if ok:
+                if acc == 0:
+                    raise ZeroDivisionError("vanishing bracket")
+                v = 1 / acc
+        cache[a] = v
+        return v
+    out = {}
+    for m, c in p.t.items():
+        rest = []
+        cc = Fraction(c)
+        for a in m:
+            v = val(a)
+            if v is False:
+                rest.append(a)
+            else:
+                cc *= v
+        if cc == 0:
+            continue
+        key = tuple(rest)
+        nv = out.get(key, 0) + cc
+        if nv == 0:
+            out.pop(key, None)
+        else:
+            out[key] = nv
+    return Poly({m: _num(c) for m, c in out.items()})
